@@ -2,7 +2,7 @@ from engine import Obl
 
 META = {
  "level_text": "CBMC symbolic execution of the real lib/log.c (whole unit), lib/log_dcs.c and lib/array.c over EVERY history of 2-3 (quick) / 3-4 (thorough) configuration and logging operations on a custom target (families: from the freshly opened target; after enabling it; after enabling it and executing every call site once), followed by one log call from each of three call sites: alphabet {log from a site, log from all sites, enable, disable, add filter (file, '*' with a priority window, function with comma alternatives, format substring; thorough: file regex, format '*'), remove filter, clear all, close and reopen the target, set a tag filter; thorough: clear tags, disable syslog}. A reference model (stored filter list per target, reference matcher written from qblog.h) decides for every log call and every open target whether the recording logger must be invoked (exactly once) or not at all, and the tag value it must see.",
- "level_note": "Histories, call sites and filter texts are scenario constants (exhaustive for the alphabet and length; 3 call sites, 7 filter texts); symbolic file names / formats are not covered. Regular expressions are a contract stub (pattern without metacharacters = substring). The logging thread, formatting and the static call-site section of the linker are not included (call sites are dynamic, qb_log_from_external_source). Trusted: CBMC, the libc string models in the harness.",
+ "level_note": "Call sites live in ONE 16-element bin of the dynamic call-site array (a second bin = second registered section did not finish in 200 s per scenario). Histories, call sites and filter texts are scenario constants (exhaustive for the alphabet and length; 3 call sites, 7 filter texts); symbolic file names / formats are not covered. Regular expressions are a contract stub (pattern without metacharacters = substring). The logging thread, formatting and the static call-site section of the linker are not included (call sites are dynamic, qb_log_from_external_source). Trusted: CBMC, the libc string models in the harness.",
  "technique": "CBMC bounded symbolic execution (SAT) of real C code over an exhaustive table of constant configuration histories; reference routing model as oracle",
  "assumptions": ["allocation never fails", "single-threaded use"],
 }
@@ -11,9 +11,10 @@ def obligations(tier):
     # (alphabet level, history length, target enabled first?, parts)
     # pre: 0 = none, 1 = target enabled first, 2 = target enabled and every call site executed once first
     # base: number of dynamic call sites created before the history (0: the three sites are slots 0-2 of the first bin;
-    #       13: slots 13-15, the last slot of the bin included; 15: slot 15 and the first two slots of a second bin)
-    fams = [(1, 3, 0, 20, 0), (2, 2, 2, 6, 13), (2, 2, 0, 6, 15)] if tier == "quick" else \
-           [(2, 3, 0, 16, 0), (2, 3, 1, 16, 13), (2, 3, 2, 16, 15), (3, 2, 0, 4, 13), (3, 3, 0, 48, 0), (1, 4, 0, 32, 15), (1, 4, 2, 32, 13)]
+    #       13: slots 13-15, the last slot of the bin included).  A second bin (base 15) is outside the bound: with two
+    #       registered sections symbolic execution of the section-list loops did not finish in 200 s per scenario.
+    fams = [(1, 3, 0, 20, 0), (2, 2, 2, 6, 13), (2, 2, 0, 6, 13)] if tier == "quick" else \
+           [(2, 3, 0, 16, 0), (2, 3, 1, 16, 13), (2, 3, 2, 16, 13), (3, 2, 0, 4, 13), (3, 3, 0, 48, 0), (1, 4, 0, 32, 13), (1, 4, 2, 32, 13)]
     obs = []
     for lvl, nops, pre, parts, base in fams:
         alpha = SIZES[lvl]
